@@ -317,6 +317,15 @@ def run_sizes(ctx):
                  "_site": "size:pbes2-password", "_why": why + "PBES2 password key", "_wrap": PBES2[0]})
         x["_must_refuse" if over else "_must_accept"] = True
         ops.append(("jwe.enc", x))
+    # wrapping a caller-supplied content key of 1023..1041 and more bytes with every family that wraps through a fixed buffer
+    for n in sizes + [1032, 1040, 1041]:
+        cek = {"kty": "oct", "k": sized(n, rng)}
+        for w, kn in (("A128KW", "oct-16"), ("A256KW", "oct-32"), ("A128GCMKW", "oct-16"), ("PBES2-HS256+A128KW", None), ("ECDH-ES+A128KW", "EC-P256")):
+            x = lim({"jwe": {"protected": {"alg": w, "enc": "A128GCM", **({"p2c": 1000} if w.startswith("PBES2") else {})}}, "rcp": {}, "jwk": pool[kn] if kn else "password",
+                     "cek": cek, "rand": rng.randbytes(120).hex(), "_site": "size:wrapped-cek", "_why": "%d-byte content key wrapped with %s" % (n, w), "_wrap": w})
+            if n > KEYMAX and "GCMKW" not in w:     # AES-GCM key wrapping streams through heap buffers: no fixed buffer, no bound
+                x["_must_refuse"] = True
+            ops.append(("jwe.enc_jwk", x))
     cmp(ctx, ops, p_refuse, mask_enc)
     # members of tokens: encrypted_key, apu, apv, epk.x
     mk = [("jwe.enc", {"jwe": {"protected": {"alg": "A128KW", "enc": "A128GCM"}}, "jwk": pool["oct-16"], "pt": "00", "rand": rng.randbytes(120).hex()}),
